@@ -108,7 +108,73 @@ def check_deep(case, acc):
     acc.tag("deep_tree_cases")
 
 
+def check_vee(case, acc):
+    """Two long branches that fork directly at the root (a deep 'V'), plus twigs: pairs across the fork at many depths."""
+    from .. import big
+
+    root, left, right, twigs = big.build_double_ladder(nodes.factory(case["cls"]), case["depth"], twig_every=40)
+    labels = forest.Labels([root] + left + right + twigs)
+    picks_l = [left[i] for i in (0, 1, 62, 63, 64, 65, 127, 128, case["depth"] - 1)] + twigs[:2]
+    picks_r = [right[i] for i in (0, 2, 62, 63, 64, 66, 129, case["depth"] - 1)] + [root]
+    nontrivial = 0
+    for a in picks_l:
+        for b in picks_r:
+            nontrivial += bool(check_pair(a, b, labels))
+            nontrivial += bool(check_pair(b, a, labels))
+    acc.evaluations += 2 * len(picks_l) * len(picks_r) - 1
+    acc.nontrivial(nontrivial > 0)
+    acc.tag("deep_vee_cases")
+
+
+OPT_SCRIPT = r"""
+import sys
+from anytree import Node, Walker, WalkError, PreOrderIter, PostOrderIter, LevelOrderIter, LevelOrderGroupIter, ZigZagGroupIter
+root = Node("r"); a = Node("a", parent=root); b = Node("b", parent=root); c = Node("c", parent=a); d = Node("d", parent=a); e = Node("e", parent=b)
+other = Node("o")
+def names(seq): return [n.name for n in seq]
+out = []
+w = Walker()
+for s, t, want in ((c, e, (["c", "a"], "r", ["b", "e"])), (root, d, ([], "r", ["a", "d"])), (d, d, ([], "d", [])), (e, a, (["e", "b"], "r", ["a"]))):
+    up, common, down = w.walk(s, t)
+    if (names(up), common.name, names(down)) != want: out.append("walk(%s,%s)=%r" % (s.name, t.name, (names(up), common.name, names(down))))
+try:
+    w.walk(c, other); out.append("no WalkError")
+except WalkError:
+    pass
+if names(PreOrderIter(root)) != list("racdbe"): out.append("pre %r" % names(PreOrderIter(root)))
+if names(PostOrderIter(root)) != list("cdaebr"): out.append("post %r" % names(PostOrderIter(root)))
+if names(LevelOrderIter(root)) != list("rabcde"): out.append("level %r" % names(LevelOrderIter(root)))
+if [names(g) for g in LevelOrderGroupIter(a)] != [["a"], ["c", "d"]]: out.append("group")
+if [names(g) for g in ZigZagGroupIter(root)] != [["r"], ["b", "a"], ["c", "d", "e"]]: out.append("zigzag %r" % [names(g) for g in ZigZagGroupIter(root)])
+if [names(g) for g in ZigZagGroupIter(a, maxlevel=2)] != [["a"], ["d", "c"]]: out.append("zigzag2")
+print("SAME" if not out else "DIFFERENT " + "; ".join(out))
+"""
+
+
+def check_optimised(case, acc):
+    """The same library in an interpreter started with -O / -OO (assert statements are compiled away): nothing the
+    operations need may live inside an assert."""
+    import os
+    import subprocess
+    import sys
+
+    from .. import core
+
+    env = dict(os.environ, PYTHONPATH=core.REPO, ANYTREE_ASSERTIONS=case["assertions_env"])
+    env.pop("PYTHONOPTIMIZE", None)
+    proc = subprocess.run([sys.executable, case["flag"], "-c", OPT_SCRIPT], env=env, stdout=subprocess.PIPE, stderr=subprocess.PIPE, text=True, timeout=120)
+    out = proc.stdout.strip()
+    if out != "SAME":
+        raise Violation("optimised-interpreter", "under python %s (ANYTREE_ASSERTIONS=%s) walks/iterations go wrong: %s %s" % (case["flag"], case["assertions_env"], out, proc.stderr.strip()[-400:]))
+    acc.nontrivial(True)
+    acc.tag("runs_in_an_optimised_interpreter")
+
+
 def check_case(case, acc):
+    if case.get("kind") == "optimised":
+        return check_optimised(case, acc)
+    if case.get("kind") == "vee":
+        return check_vee(case, acc)
     if case.get("kind") == "deep":
         return check_deep(case, acc)
     make = nodes.factory(case["cls"])
@@ -183,10 +249,27 @@ def plan(tier, seed):
     tasks = [{"engine": "enum", "max_nodes": max_nodes, "index": i, "count": nshards * 2} for i in range(nshards * 2)]
     tasks += [{"engine": "hyp", "examples": examples, "seed": seed * 1000 + i} for i in range(nshards)]
     tasks += [{"engine": "deep", "depth": d, "cls": c} for d in ((700, 1500) if tier == "quick" else (300, 700, 1500, 3000)) for c in ("Node", "SlotLM", "AnyNode")]
+    tasks += [{"engine": "vee", "depth": d, "cls": c} for d in ((300,) if tier == "quick" else (140, 300, 1200)) for c in ("Node", "SlotLM")]
+    tasks += [{"engine": "optimised"}]
     return tasks
 
 
 def run_task(task, acc):
+    if task["engine"] == "vee":
+        case = {"kind": "vee", "depth": task["depth"], "cls": task["cls"]}
+        exc = acc.evaluate(check_case, case, enumerated=False)
+        if exc is not None:
+            acc.add_violation(case, exc)
+        return
+    if task["engine"] == "optimised":
+        for flag in ("-O", "-OO"):
+            for env in ("0", "1"):
+                case = {"kind": "optimised", "flag": flag, "assertions_env": env}
+                exc = acc.evaluate(check_case, case, enumerated=False)
+                if exc is not None:
+                    acc.add_violation(case, exc)
+                    return
+        return
     if task["engine"] == "deep":
         case = {"kind": "deep", "depth": task["depth"], "every": 97, "cls": task["cls"]}
         exc = acc.evaluate(check_case, case, enumerated=False)
